@@ -369,16 +369,24 @@ impl Interpreter {
                 state.stack.push_bigint(a % b)?;
             }
             OpCodes::OP_LSHIFT => {
-                let a = state.stack.pop_bigint()?;
-                let b = state.stack.pop_number()?;
+                let n = state.stack.pop_number()?;
+                let x = state.stack.pop_bytes()?;
 
-                state.stack.push_bigint(a << b)?;
+                if n < 0 {
+                    return Err(InterpreterError::InvalidStackOperation("OP_LSHIFT by a negative number of bits"));
+                }
+
+                state.stack.push_bytes(stack_trait::shift_bytes_left(&x, n as usize));
             }
             OpCodes::OP_RSHIFT => {
-                let a = state.stack.pop_bigint()?;
-                let b = state.stack.pop_number()?;
+                let n = state.stack.pop_number()?;
+                let x = state.stack.pop_bytes()?;
 
-                state.stack.push_bigint(a >> b)?;
+                if n < 0 {
+                    return Err(InterpreterError::InvalidStackOperation("OP_RSHIFT by a negative number of bits"));
+                }
+
+                state.stack.push_bytes(stack_trait::shift_bytes_right(&x, n as usize));
             }
             OpCodes::OP_BOOLAND => {
                 let a = state.stack.pop_bool()?;
